@@ -59,7 +59,7 @@ Reg == <<
   F("divergence_curl", 3, 0, 0, 0, {}),
   F("vibrability", 2, 0, 0, 0, {1}),
   F("vector_decomposition_sq", 3, 0, 0, 0, {1}),
-  F("vector_fft_corr", 2, 0, 1, 0, {0, 1}),
+  F("vector_fft_corr", 3, 0, 1, 0, {0, 1, 2}),
   F("time_correlation", 4, 0, 0, 0, {1, 3}),
   F("Nnearests", 2, 0, 0, 0, {}),
   F("cutoffneighbors", 2, 0, 0, 0, {}),
@@ -86,7 +86,7 @@ Reg == <<
   F("write_dump_header", 1, 0, 0, 0, {}),
   E("gr", "gr", "ctor", 2, 0, 0, 0, "", {}, {}),
   E("gr.getresults", "gr", "method", 1, 0, 0, 0, "", {}, {1}),
-  E("sq", "sq", "ctor", 2, 0, 0, 0, "", {}, {}),
+  E("sq", "sq", "ctor", 3, 0, 0, 0, "", {}, {}),
   E("sq.getresults", "sq", "method", 1, 0, 0, 0, "", {}, {1}),
   E("boo_3d", "boo3d", "ctor", 2, 3, 0, 0, "", {}, {}),
   E("boo_3d.ql_Ql", "boo3d", "method", 3, 3, 0, 0, "", {1, 2}, {}),
